@@ -294,6 +294,49 @@ func init() {
 				}
 			}
 		}
+		// a first, quiet replay: only the operations of the history and GetFields, so that nothing the oracle itself
+		// does (it packs and encodes after every step below) can refresh what the library keeps between operations. After
+		// a write of v to element id every node of its value was there before the write or is part of v
+		{
+			quiet := map[int]*Sx{}
+			replayMsg(spec, a[1].List, func(i int, o *Sx, m *iso8583.Message) {
+				if len(fs) > 0 || o.Head() == "get" || o.Head() == "note" {
+					return
+				}
+				if o.Head() == "setval" && o.List[1].Int() >= 2 {
+					id := o.List[1].Int()
+					before := map[string]bool{}
+					if pv, ok := quiet[id]; ok && pv != nil {
+						valuePaths(pv, fmt.Sprint(id), before)
+					}
+					valuePaths(o.List[2], fmt.Sprint(id), before)
+					after := map[string]bool{}
+					if cur := observedVal(m, id); cur != nil {
+						valuePaths(cur, fmt.Sprint(id), after)
+					}
+					for p := range after {
+						if !before[p] {
+							fs = append(fs, Finding{"c14-resurrected", fmt.Sprintf("after step %d (setval %d) subfield %s is populated though it was neither populated before this write nor part of it", i, id, p)})
+							return
+						}
+					}
+				}
+				got := m.GetFields()
+				for id := range got {
+					if id >= 2 {
+						quiet[id] = observedVal(m, id)
+					}
+				}
+				for id := range quiet {
+					if _, ok := got[id]; !ok {
+						delete(quiet, id)
+					}
+				}
+			})
+			if len(fs) > 0 {
+				return true, fs
+			}
+		}
 		replayMsg(spec, a[1].List, func(i int, o *Sx, m *iso8583.Message) {
 			if len(fs) > 0 || o.Head() == "get" || o.Head() == "note" {
 				return
@@ -500,7 +543,28 @@ func init() {
 			if fmt.Sprint(presentIDs(c)) != fmt.Sprint(presentIDs(m)) {
 				fs = append(fs, Finding{"c15-clone-loses-fields", "a clone has a different set of present fields"})
 			}
-			// independence: changing the clone must not show in the original, and vice versa
+			// independence: changing the clone must not show in the original, and vice versa. First without touching the
+			// original at all (obs packs it, which would refresh anything the two share): what Describe shows of the
+			// original stays what it was while the clone loses a subfield of every composite and is packed and encoded
+			descOnly := func(x *iso8583.Message) string {
+				var d bytes.Buffer
+				derr := iso8583.Describe(x, &d, iso8583.DoNotFilterFields()...)
+				return fmt.Sprintf("%s|%v", d.String(), derr != nil)
+			}
+			d0 := descOnly(m)
+			for _, id := range presentIDs(c) {
+				if cf, ok := c.GetField(id).(*field.Composite); ok {
+					for _, t := range sortedKeys(cf.GetSubfields()) {
+						cf.UnsetSubfield(t)
+						break
+					}
+				}
+			}
+			c.Pack()
+			c.MarshalJSON()
+			if descOnly(m) != d0 {
+				fs = append(fs, Finding{"c15-clone-shares-state", "packing a modified clone changed what Describe shows of the original"})
+			}
 			for _, id := range presentIDs(c) {
 				c.UnsetField(id)
 			}
